@@ -103,6 +103,13 @@ def guards_of_block(fn, b):
             r = reachable_blocks(fn, fn.entry, avoid_edges=((blk, idx),))
             if b not in r:
                 res.add((cond, truth))
+                # what the edge implies, independent of spelling: `!x`, `x == false`, `(a && b) == false` taken false, `!(a || b)` … give their atoms with the implied truth value
+                cn = fn.nodes.get(cond)
+                if cn is not None:
+                    from . import ast as _A
+                    for (a, t) in _A.implied_atoms(cn, truth):
+                        if a.get('i') is not None and a['i'] in fn.nodes:
+                            res.add((a['i'], t))
     cache[b] = res
     return res
 
